@@ -85,11 +85,16 @@ def r1_shared_ir(chk):
     for rel, cname in ((PYSNMP, 'PySnmpCodeGen'), (JSONDOC, 'JsonCodeGen')):
         o, fn = model.cls(rel, cname).find_method('genCode')
         first = [s for s in fn.body if isinstance(s, ast.Assign)][0]
-        ok = norm(first) == 'mibInfo, context = IntermediateCodeGen.genCode(self, ast, symbolTable, **kwargs)'
-        chk.ob('C04.R1', '%s.genCode/starts-from-IR' % cname, ok, where(o.mod, first), norm(first)[:90])
+        b = common.pmatch(first, '$mi, $ctx = IntermediateCodeGen.genCode(self, ast, symbolTable, **kwargs)')
+        chk.ob('C04.R1', '%s.genCode/starts-from-IR' % cname, b is not None, where(o.mod, first), norm(first)[:90])
         rets = [x for x in walk_no_nested(fn) if isinstance(x, ast.Return)]
-        chk.ob('C04.R1', '%s.genCode/returns-mibinfo-text' % cname, len(rets) == 1 and norm(rets[0].value) ==
-               '(mibInfo, text)', where(o.mod, fn), '')
+        rend = [s for s in walk_no_nested(fn) if isinstance(s, ast.Assign) and isinstance(s.value, ast.Call) and
+                isinstance(s.value.func, ast.Attribute) and s.value.func.attr == 'render' and
+                isinstance(s.targets[0], ast.Name)]
+        okr = len(rets) == 1 and b is not None and len(rend) == 1 and \
+            norm(rets[0].value) == '(%s, %s)' % (b['mi'], rend[0].targets[0].id)
+        chk.ob('C04.R1', '%s.genCode/returns-mibinfo-text' % cname, okr, where(o.mod, fn),
+               'must return (MibInfo of the IR pass, rendered text)')
     so = class_attr_value(model, PYSNMP, 'PySnmpCodeGen', 'SMI_OBJECTS')
     st = class_attr_value(model, ir.SYMTAB, 'SymtableCodeGen', 'symsTable')
     same = sorted(so) == sorted(st) and all(tuple(so[k]) == tuple(st[k]) for k in so)
@@ -98,16 +103,21 @@ def r1_shared_ir(chk):
                k for k in set(so) | set(st) if tuple(so.get(k, ())) != tuple(st.get(k, ()))))
     o, fn = model.cls(PYSNMP, 'PySnmpCodeGen').find_method('genCode')
     mod = o.mod
+    b0 = common.pmatch([s for s in fn.body if isinstance(s, ast.Assign)][0],
+                       '$mi, $ctx = IntermediateCodeGen.genCode(self, ast, symbolTable, **kwargs)')
+    ctx = b0['ctx'] if b0 else 'context'
     # translateOids
     tr = [n for n in ast.walk(fn) if isinstance(n, ast.FunctionDef) and n.name == 'translateOids']
     ok = len(tr) == 1
     if ok:
         t = tr[0]
         txt = norm(t)
-        ok = "isinstance(value, dict)" in txt and "translateOids(value)" in txt and "key == 'oid'" in txt and \
-            "tuple((int(x) for x in value.split('.')))" in txt
+        ok = common.pmatch(txt, "isinstance($v, dict)", full=False) is not None and \
+            common.pmatch(txt, "translateOids($v)", full=False) is not None and \
+            common.pmatch(txt, "$k == 'oid'", full=False) is not None and \
+            common.pmatch(txt, "$d[$k] = tuple((int($x) for $x in $v.split('.')))", full=False) is not None
     chk.ob('C04.R1', 'translateOids', ok, where(mod, fn), 'every `oid` member (recursively) must become a tuple of ints')
-    call = [s for s in fn.body if isinstance(s, ast.Expr) and norm(s.value) == 'translateOids(context)']
+    call = [s for s in fn.body if isinstance(s, ast.Expr) and norm(s.value) == 'translateOids(%s)' % ctx]
     sorts = [n for n in walk_no_nested(fn) if isinstance(n, ast.Call) and dotted_name(n.func) == 'sorted']
     ok = len(call) == 1 and len(sorts) == 1 and call[0].lineno < sorts[0].lineno
     chk.ob('C04.R1', 'oid-conversion-before-sort', ok, where(mod, fn),
@@ -115,19 +125,22 @@ def r1_shared_ir(chk):
            '...10 before ...9 and breaks definitions that refer to earlier ones)')
     if sorts:
         kw = [k for k in sorts[0].keywords if k.arg == 'key']
-        ok = len(kw) == 1 and norm(kw[0].value) == "lambda x: x[1].get('oid', ())" and \
-            norm(sorts[0].args[0]) == 'context.items()' and not [k for k in sorts[0].keywords if k.arg == 'reverse']
+        ok = len(kw) == 1 and common.pmatch(kw[0].value, "lambda $x: $x[1].get('oid', ())") is not None and \
+            norm(sorts[0].args[0]) == '%s.items()' % ctx and not [k for k in sorts[0].keywords if k.arg == 'reverse']
         chk.ob('C04.R1', 'sort-key', ok, where(mod, sorts[0]), 'sort: %s' % norm(sorts[0])[:100])
     # no deletion of keys from context
     dels = [n for n in walk_no_nested(fn) if isinstance(n, ast.Delete) or (
         isinstance(n, ast.Call) and isinstance(n.func, ast.Attribute) and n.func.attr in ('pop', 'popitem', 'clear') and
-        'context' in norm(n.func.value))]
+        ctx in norm(n.func.value))]
     chk.ob('C04.R1', 'adapter-keeps-all-records', not dels, where(mod, fn), 'records removed: %s' % [norm(d) for d in dels])
     # import translation
-    loop = [n for n in fn.body if isinstance(n, ast.For) and "context.get('imports'" in norm(n.iter)]
-    ok = len(loop) == 1 and 'if symbol in self.SMI_OBJECTS' in norm(loop[0]) and \
-        'imports[module].extend(self.SMI_OBJECTS[symbol])' in norm(loop[0]) and \
-        'imports[module].append(symbol)' in norm(loop[0])
+    loop = [n for n in fn.body if isinstance(n, ast.For) and "%s.get('imports'" % ctx in norm(n.iter)]
+    ok = len(loop) == 1
+    if ok:
+        lt = norm(loop[0])
+        b = common.pmatch(lt, 'if $s in self.SMI_OBJECTS', full=False)
+        ok = b is not None and common.pmatch(lt, '$i[$m].extend(self.SMI_OBJECTS[%s])' % b['s'], full=False) is not None \
+            and common.pmatch(lt, '$i[$m].append(%s)' % b['s'], full=False) is not None
     chk.ob('C04.R1', 'import-name-translation', ok, where(mod, fn), 'imports must be translated through SMI_OBJECTS, '
                                                                     'all other symbols kept')
 
@@ -291,12 +304,15 @@ def r6_sibling_tails(chk):
     tails = {}
     for rel, cname in ((PYSNMP, 'PySnmpCodeGen'), (JSONDOC, 'JsonCodeGen')):
         o, fn = model.cls(rel, cname).find_method('genCode')
-        start = [i for i, s in enumerate(fn.body) if isinstance(s, ast.Assign) and _key_is(s.targets[0], 'searchPath')]
+        sp = [norm(c.args[0]) for c in walk_no_nested(fn) if isinstance(c, ast.Call) and
+              dotted_name(c.func) == 'jinja2.FileSystemLoader' and c.args]
+        spv = sp[0] if sp else 'searchPath'
+        start = [i for i, s in enumerate(fn.body) if isinstance(s, ast.Assign) and _key_is(s.targets[0], spv)]
         if not start:
             chk.ob('C04.R6', '%s.genCode/tail' % cname, False, where(o.mod, fn), 'no searchPath assignment')
             continue
         tail = fn.body[start[0]:]
-        tails[cname] = [norm(s) for s in tail if not (isinstance(s, ast.Expr) and 'debug.logger' in norm(s))]
+        tails[cname] = [common.canon_text(s) for s in tail if not (isinstance(s, ast.Expr) and 'debug.logger' in norm(s))]
     if len(tails) == 2:
         a, b = tails['PySnmpCodeGen'], tails['JsonCodeGen']
         chk.ob('C04.R6', 'genCode-tails-agree', a == b, PYSNMP,
